@@ -293,8 +293,10 @@ def profile(kind: str):
     if kind == "funcs":
         return P(max_stmts=5, functions=True)
     if kind == "incore":
-        return P(max_stmts=6, functions=False, for_list=False, stack_access=False, index_lists=False, dead_loops=False,
+        return P(max_stmts=6, functions=False, for_list=False, index_lists=False, dead_loops=False,
                  bool_ops=True)
+    if kind == "incoref":
+        return P(max_stmts=5, functions=True, max_funcs=3, leaf_functions=True, for_list=False, index_lists=False, dead_loops=False, bool_ops=True)
     if kind == "tco0":
         return P(max_stmts=4, functions=True, max_funcs=3, procedures_only=True, no_params=True, tco_safe=True, for_list=False, max_depth=1)
     if kind == "procs0":
